@@ -94,6 +94,32 @@ def documented_run(seq):
     return True
 
 
+def m2m_spec():
+    f = lambda n, t, **a: {'name': n, 'type': t, 'attrs': a, 'related': None}
+    pk = {'name': 'id', 'type': 'AutoField', 'attrs': {'primary_key': True}, 'related': None}
+    return {'apps': [{'id': 'vapp', 'models': [
+        {'name': 'Alpha', 'table': 'vapp_alpha', 'fields': [pk, f('a', 'IntegerField')],
+         'unique_together': [], 'index_together': [], 'indexes': [], 'constraints': []},
+        {'name': 'Beta', 'table': 'vapp_beta', 'fields': [pk, f('n', 'IntegerField'),
+                                                          dict(f('tags', 'ManyToManyField', db_table='vapp_beta_tags'), related='vapp.Alpha'),
+                                                          dict(f('r', 'ForeignKey', null=True), related='vapp.Alpha')],
+         'unique_together': [], 'index_together': [], 'indexes': [], 'constraints': []}]}]}
+
+
+def m2m_alphabet():
+    """attribute changes of relation fields: some have no database representation at all (null on a
+    ManyToManyField), some are a rename of the join table, some are ordinary column changes"""
+    cf = lambda field, *attrs, **kw: {'t': 'ChangeField', 'model': 'Beta', 'field': field, 'ftype': None,
+                                      'initial': kw.get('initial'), 'attrs': [list(a) for a in attrs]}
+    return [cf('tags', ('null', 'true')), cf('tags', ('null', 'false')),
+            cf('tags', ('db_table', '"vapp_beta_labels"')), cf('tags', ('db_table', '"vapp_beta_tags2"')),
+            cf('tags', ('null', 'true'), ('db_table', '"vapp_beta_labels"')),
+            cf('r', ('null', 'false'), initial='1'), cf('r', ('db_index', 'false')), cf('n', ('null', 'true')),
+            {'t': 'AddField', 'model': 'Beta', 'field': 'x', 'ftype': 'IntegerField', 'initial': '1', 'attrs': []},
+            {'t': 'DeleteField', 'model': 'Beta', 'field': 'n'},
+            {'t': 'AddField', 'model': 'Alpha', 'field': 'y', 'ftype': 'IntegerField', 'initial': '1', 'attrs': []}]
+
+
 def run(ctx):
     dj.setup()
     quick = ctx.tier == 'quick'
@@ -117,14 +143,23 @@ def run(ctx):
     doc_alpha = [m for m in full if m.get('model') == 'Alpha' and m['t'] in ('AddField', 'DeleteField', 'ChangeField', 'ChangeMeta')]
     for _ in range(60 if quick else 1500):
         seqs.append(optrig.random_sequence(ctx.rng, sig, doc_alpha, ctx.rng.randint(2, 6)))
+    # relation fields (many-to-many join tables, foreign keys): exhaustive length <= 2, sampled length 3
+    spec2 = m2m_spec()
+    sig2 = sigs.sig_from_spec(spec2)
+    rel = list(optrig.valid_sequences(sig2, m2m_alphabet(), 2))
+    rel3 = list(optrig.valid_sequences(sig2, m2m_alphabet(), 3))
+    ctx.rng.shuffle(rel3)
+    rel += rel3[:40 if quick else 1200]
+    work = [(spec2, q) for q in rel] + [(spec, q) for q in seqs]
     merge_witness = None
     reqs = []
     pending = []
-    for seq in seqs:
+    for spec, seq in work:
         if ctx.time_left() < 20:
             break
         if not seq:
             continue
+        ctx.count('space:relations' if spec is spec2 else 'space:C03')
         try:
             ops_s, sql_s = run_on_db(spec, seq, stepwise=True)
         except Exception:
@@ -172,6 +207,7 @@ def run(ctx):
     # ---- the documented guarantee and the extracted table ------------------------------------
     w = [{'t': 'AddField', 'model': 'Alpha', 'field': 'c', 'ftype': 'IntegerField', 'initial': '1', 'attrs': []},
          {'t': 'DeleteField', 'model': 'Alpha', 'field': 'b'}]
+    spec = optrig.start_spec()
     ops_b, sql_b = run_on_db(spec, w, stepwise=False)
     n = sum(count_rebuilds(sql_b).values())
     ctx.variant['C18_cex_add_delete_rebuilds'] = n
